@@ -96,7 +96,7 @@ impl Middleware<St, Ac> for Mw {
 #[derive(Clone, Copy, Debug, PartialEq)]
 struct RCfg {
     dispatch: bool,
-    effect: u8, // 0 none, 1 task, 2 thunk
+    effect: u8, // 0 none, 1 task, 2 thunk, 3 function, 4 action
 }
 struct Rd {
     id: usize,
@@ -110,6 +110,8 @@ impl Reducer<St, Ac> for Rd {
         let eff = match self.cfg.effect {
             1 => Some(Effect::Task(Box::new(|| {}))),
             2 => Some(Effect::Thunk(Box::new(|_d| {}))),
+            3 => Some(Effect::Function("f".to_string(), Box::new(|| Ok(Box::new(0u8) as Box<dyn std::any::Any + Send>)))),
+            4 => Some(Effect::Action(*action + 1000)),
             _ => None,
         };
         if self.cfg.dispatch {
@@ -222,7 +224,7 @@ impl Model {
                 k += 1;
             }
         }
-        let handed: Vec<Ev> = effs.iter().map(|e| if *e == 1 { Ev::Task } else { Ev::Thunk }).collect();
+        let handed: Vec<Ev> = effs.iter().map(|e| if *e == 1 || *e == 3 { Ev::Task } else { Ev::Thunk }).collect();
         (ev, handed, n)
     }
     fn notify(&self, s2: St, a: Ac) -> (Vec<Ev>, usize) {
@@ -347,7 +349,7 @@ fn run_pipeline_case(r: &Rig, m: &Model, s: St, a: Ac) -> Option<(String, String
         return Some((if vetoed { "O-C12-do_reduce-veto" } else { "O-C01-do_reduce-fold" }.into(), format!("do_reduce state {}", exp_s2), format!("do_reduce state {}", s2)));
     }
     let mut effects = effects.unwrap_or_default();
-    let got_eff: Vec<u8> = effects.iter().map(|e| match e { Effect::Task(_) => 1, Effect::Thunk(_) => 2, _ => 9 }).collect();
+    let got_eff: Vec<u8> = effects.iter().map(|e| match e { Effect::Task(_) => 1, Effect::Thunk(_) => 2, Effect::Function(..) => 3, Effect::Action(_) => 4 }).collect();
     if got_eff != exp_eff {
         return Some(("O-C11-do_reduce-effects".into(), format!("effects returned {:?}", exp_eff), format!("effects returned {:?}", got_eff)));
     }
@@ -399,6 +401,7 @@ fn suite_pipeline() -> Option<String> {
         vec![RCfg { dispatch: true, effect: 1 }, RCfg { dispatch: true, effect: 2 }],
         vec![RCfg { dispatch: false, effect: 0 }, RCfg { dispatch: false, effect: 2 }],
         vec![RCfg { dispatch: true, effect: 2 }, RCfg { dispatch: false, effect: 1 }, RCfg { dispatch: true, effect: 0 }],
+        vec![RCfg { dispatch: true, effect: 3 }, RCfg { dispatch: true, effect: 3 }, RCfg { dispatch: true, effect: 4 }],
     ];
     for n_mw in 0..=2usize {
         for reds in red_cfgs.iter() {
@@ -1152,7 +1155,67 @@ fn run_channeled_case(policy: char, cap: usize, teardown: char) -> Option<(Strin
     }
     None
 }
+
+// blocking policy, more notifications than the subscription queue holds while the subscriber is parked:
+// the reducer waits (it is never allowed to drop), and in the end the channeled subscriber has seen
+// exactly the stream of a direct subscriber
+fn run_channeled_overfill(cap: usize, default_api: bool) -> Option<(String, String, String)> {
+    use std::sync::mpsc;
+    struct Gated {
+        got: Arc<Mutex<Vec<(St, Ac)>>>,
+        gate: Mutex<mpsc::Receiver<()>>,
+        entered: Mutex<mpsc::Sender<()>>,
+    }
+    impl Subscriber<St, Ac> for Gated {
+        fn on_notify(&self, s: &St, a: &Ac) {
+            if *a == 1 {
+                let _ = self.entered.lock().unwrap().send(());
+                let _ = self.gate.lock().unwrap().recv_timeout(Duration::from_secs(10));
+            }
+            self.got.lock().unwrap().push((*s, *a));
+        }
+    }
+    let store = StoreBuilder::<St, Ac>::new(0)
+        .with_capacity(64)
+        .with_reducer(Box::new(crate::reducer::FnReducer::from(|s: &St, a: &Ac| DispatchOp::Dispatch(mix(*s, *a, 0), None))))
+        .build()
+        .unwrap();
+    let got_c = Arc::new(Mutex::new(vec![]));
+    let direct: Arc<Mutex<Vec<Ev>>> = Arc::new(Mutex::new(vec![]));
+    let (gate_tx, gate_rx) = mpsc::channel();
+    let (ent_tx, ent_rx) = mpsc::channel();
+    let gated = Box::new(Gated { got: got_c.clone(), gate: Mutex::new(gate_rx), entered: Mutex::new(ent_tx) });
+    let sub = if default_api { store.subscribed(gated) } else { store.subscribed_with(cap, BackpressurePolicy::BlockOnFull, gated) };
+    let sub = match sub {
+        Ok(s) => s,
+        Err(_) => return Some(("O-C10-subscribed_with-thread-and-registration".into(), "subscribed succeeds".into(), "Err".into())),
+    };
+    let _d = store.add_subscriber(Arc::new(Sb { id: 0, log: direct.clone() }));
+    let eff_cap = if default_api { 16 } else { cap };
+    let n = eff_cap as Ac + 4;
+    for a in 1..=n {
+        store.dispatch(a).unwrap();
+        if a == 1 && ent_rx.recv_timeout(Duration::from_secs(10)).is_err() {
+            return Some(("O-C10-delivery-loop".into(), "the delivery thread calls the subscriber for the first notification".into(), "not within 10 s".into()));
+        }
+    }
+    std::thread::sleep(Duration::from_millis(300));
+    let _ = gate_tx.send(());
+    store.stop();
+    sub.unsubscribe();
+    let exp: Vec<(St, Ac)> = direct.lock().unwrap().iter().filter_map(|e| if let Ev::Notify(_, s, a) = e { Some((*s, *a)) } else { None }).collect();
+    let got = got_c.lock().unwrap().clone();
+    if got != exp || exp.len() != n as usize {
+        return Some(("O-C10-forward-one-clone".into(), format!("a blocking channeled subscriber sees exactly what a direct subscriber sees: {:?}", exp), format!("{:?}", got)));
+    }
+    None
+}
 fn suite_channeled() -> Option<String> {
+    for (cap, default_api) in [(1usize, false), (3, false), (0, true)] {
+        if let Some((ob, exp, got)) = run_channeled_overfill(cap, default_api) {
+            return Some(found("channeled", &ob, format!("channeled overfill cap={} default_api={}", cap, default_api as u8), exp, got));
+        }
+    }
     for policy in ['B', 'O', 'L'] {
         for cap in [1usize, 3] {
             for teardown in ['u', 's'] {
@@ -1165,6 +1228,11 @@ fn suite_channeled() -> Option<String> {
     None
 }
 fn replay_channeled(case: &str) -> Option<String> {
+    if case.contains("overfill") {
+        let cap: usize = case.split_whitespace().find_map(|t| t.strip_prefix("cap=")).and_then(|v| v.parse().ok()).unwrap_or(1);
+        let d = case.contains("default_api=1");
+        return run_channeled_overfill(cap, d).map(|(ob, exp, got)| found("channeled", &ob, case.to_string(), exp, got));
+    }
     let (mut p, mut cap, mut t) = ('B', 1, 'u');
     for tok in case.split_whitespace() {
         if let Some(v) = tok.strip_prefix("policy=") {
@@ -1257,7 +1325,56 @@ fn run_iter_case(n: usize, keep: bool, policy: char, full: bool) -> Option<(Stri
     }
     None
 }
+// the consumer is one item behind when the store stops: stop() waits in the release of the iterator's
+// subscription (blocking Exit behind the unread pair); the consumer then gets the pair, then None
+fn run_iter_late_consumer() -> Option<(String, String, String)> {
+    use std::sync::mpsc;
+    let store = StoreBuilder::<St, Ac>::new(0)
+        .with_reducer(Box::new(crate::reducer::FnReducer::from(|s: &St, a: &Ac| DispatchOp::Dispatch(mix(*s, *a, 0), None))))
+        .build()
+        .unwrap();
+    let mut it = store.iter();
+    let direct: Arc<Mutex<Vec<Ev>>> = Arc::new(Mutex::new(vec![]));
+    let _d = store.add_subscriber(Arc::new(Sb { id: 0, log: direct.clone() }));
+    store.dispatch(1).unwrap();
+    // wait until the pair has been handed to the iterator's channel (the direct subscriber is registered after it)
+    let t0 = Instant::now();
+    while direct.lock().unwrap().iter().filter(|e| matches!(e, Ev::Notify(..))).count() < 1 && t0.elapsed() < Duration::from_secs(5) {
+        std::thread::sleep(Duration::from_millis(5));
+    }
+    let st2 = store.clone();
+    let stopper = std::thread::spawn(move || st2.stop());
+    std::thread::sleep(Duration::from_millis(200));
+    let (out_tx, out_rx) = mpsc::channel();
+    let consumer = std::thread::spawn(move || {
+        for _ in 0..3 {
+            let _ = out_tx.send(it.next());
+        }
+    });
+    let mut got = vec![];
+    for _ in 0..3 {
+        match out_rx.recv_timeout(Duration::from_secs(5)) {
+            Ok(x) => got.push(x),
+            Err(_) => {
+                std::mem::forget(consumer);
+                std::mem::forget(stopper);
+                return Some(("O-C14-iter-release-sends-exit".into(), "a consumer that is one item behind when the store stops gets Some(pair), None, None".into(), format!("{:?}, then next() blocked (nothing within 5 s)", got)));
+            }
+        }
+    }
+    let _ = consumer.join();
+    let _ = stopper.join();
+    let exp = vec![Some((mix(0, 1, 0), 1)), None, None];
+    if got != exp {
+        return Some(("O-C14-next-end".into(), format!("{:?}", exp), format!("{:?}", got)));
+    }
+    None
+}
+
 fn suite_iter() -> Option<String> {
+    if let Some((ob, exp, got)) = run_iter_late_consumer() {
+        return Some(found("iter", &ob, "iter late_consumer".to_string(), exp, got));
+    }
     for (n, keep, policy, full) in [(0usize, false, 'B', false), (1, false, 'B', false), (4, false, 'B', false), (5, true, 'B', false), (2, false, 'L', true)] {
         if let Some((ob, exp, got)) = run_iter_case(n, keep, policy, full) {
             return Some(found("iter", &ob, format!("iter n={} keep={} policy={} full={}", n, keep as u8, policy, full as u8), exp, got));
@@ -1266,6 +1383,9 @@ fn suite_iter() -> Option<String> {
     None
 }
 fn replay_iter(case: &str) -> Option<String> {
+    if case.contains("late_consumer") {
+        return run_iter_late_consumer().map(|(ob, exp, got)| found("iter", &ob, case.to_string(), exp, got));
+    }
     let (mut n, mut keep, mut p, mut full) = (1, false, 'B', false);
     for tok in case.split_whitespace() {
         if let Some(v) = tok.strip_prefix("n=") {
